@@ -1127,6 +1127,7 @@ func (e *ordEngine) totalOrders(reach []*core.FuncInfo) {
 			}
 			return io, field, true
 		}
+		e.strictOrder(owner, fi, body, coll, pi, pj, pos)
 		raw := false
 		rawFields := map[string]bool{}
 		var seen []string
